@@ -452,7 +452,9 @@ class LowerToIRVisitor(Visitor.DefaultVisitor):
                 ctx.BasicBlock.AddInstruction(si)
                 return si
             else:
-                leftComponentCount = value.Type.Size
+                leftComponentCount = (
+                    value.Type.Size if value.Type.IsVector() else 1
+                )
                 indices = list(range(leftComponentCount))
 
                 for i, c in enumerate(member.GetName()):
